@@ -39,7 +39,10 @@ def simplify_specifiers(spec):
     eq = None
     ne = []
 
-    for i in spec:
+    # A SpecifierSet iterates in hash order; go through it in a stable order so
+    # that the result doesn't depend on PYTHONHASHSEED when several specifiers
+    # name the same version (e.g. `>=1.0,>=1.00`).
+    for i in sorted(spec, key=str):
         if i.operator == '==':
             if eq is None:
                 eq = i
